@@ -4,6 +4,8 @@ Stage D, part 2: the loop invariant for models with logic; the basic state trans
 arbitrary normalised sides).
 -/
 import Rooc.Proofs.LinD1
+import Rooc.Proofs.LinNC2
+import Rooc.Proofs.LinNC3
 import Rooc.Proofs.LinMain
 
 set_option linter.unusedSectionVars false
@@ -27,30 +29,46 @@ def DefOn (d : List (DomVar (Ext K))) (e : Exp (Ext K)) : Prop :=
 def LOon (d : List (DomVar (Ext K))) (e : Exp (Ext K)) : Prop :=
   ∀ ρ : String → K, DomSat ρ d → LogicOperands01 ρ e
 
+/-- no and/or node of `e` collapses (under `simplify`) to a non-0/1 value, at every assignment that satisfies
+the domains `d` — exactly what C10's singleton-collapse finding violates; implied by `LOon` on defined
+expressions, and by the harness flag `collapsesNonbinary` being `false`. -/
+def NCon (d : List (DomVar (Ext K))) (e : Exp (Ext K)) : Prop :=
+  ∀ ρ : String → K, DomSat ρ d → NC ρ e
+
 /-- the contract on a source expression: declared used variables only, finite literals, and — at every
-assignment satisfying the domains — defined, with 0/1-valued and/or operands. -/
+assignment satisfying the domains — defined, with no and/or node collapsing to a non-0/1 value. -/
 structure GoodE (d : List (DomVar (Ext K))) (e : Exp (Ext K)) : Prop where
   vars : ∀ x ∈ varsOf e, inScope d x
   fin : FinE e
-  lo : LOon d e
+  nc : NCon d e
   defd : DefOn d e
+
+theorem NCon.ofLO {d : List (DomVar (Ext K))} {e : Exp (Ext K)} (hlo : LOon d e) (hd : DefOn d e) : NCon d e :=
+  fun ρ hρ => NC_of_LO ρ e (hlo ρ hρ) (hd ρ hρ)
+
+/-- the harness flag: unflagged expressions over a domain with distinct names satisfy the and/or clause. -/
+theorem NCon.ofFlag {d : List (DomVar (Ext K))} (hnd : (d.map (·.name)).Nodup) {e : Exp (Ext K)}
+    (hsc : ∀ x ∈ varsOf e, inScope d x)
+    (h : collapsesNonbinary (isBoolVar d) e = false) : NCon d e := by
+  intro ρ hρ
+  exact NC_of_not_collapses (S := inScope d) (fun x hx hb => boolOK_of_domSat hnd hρ x hx hb) e hsc h
 
 theorem domSat_left {ρ : String → K} {d d' : List (DomVar (Ext K))} (h : DomSat ρ (d ++ d')) : DomSat ρ d :=
   (domSat_append.mp h).1
 
 theorem GoodE.mono {d : List (DomVar (Ext K))} {e : Exp (Ext K)} (h : GoodE d e) (d' : List (DomVar (Ext K))) :
     GoodE (d ++ d') e :=
-  ⟨fun x hx => inScope_append_left (h.vars x hx), h.fin, fun ρ hd => h.lo ρ (domSat_left hd),
+  ⟨fun x hx => inScope_append_left (h.vars x hx), h.fin, fun ρ hd => h.nc ρ (domSat_left hd),
     fun ρ hd => h.defd ρ (domSat_left hd)⟩
 
 /-- `normalize` keeps the contract and the value. -/
 theorem GoodE.normalize {d : List (DomVar (Ext K))} {e e' : Exp (Ext K)} (h : GoodE d e)
     (hn : normalizeExp e = some e') :
     GoodE d e' ∧ ∀ ρ : String → K, DomSat ρ d → eval ρ e' = eval ρ e := by
-  have key : ∀ ρ : String → K, DomSat ρ d → ∃ v, eval ρ e = some v ∧ eval ρ e' = some v ∧ LogicOperands01 ρ e' := by
+  have key : ∀ ρ : String → K, DomSat ρ d → ∃ v, eval ρ e = some v ∧ eval ρ e' = some v ∧ NC ρ e' := by
     intro ρ hd
     obtain ⟨v, hv⟩ := h.defd ρ hd
-    obtain ⟨h1, h2⟩ := normalize_eval_lo hn (h.lo ρ hd) hv
+    obtain ⟨h1, h2⟩ := normalize_eval_nc hn (h.nc ρ hd) hv
     exact ⟨v, hv, h1, h2⟩
   refine ⟨⟨fun x hx => h.vars x (varsOf_normalize hn x hx), finiteLits_normalize h.fin hn, ?_, ?_⟩, ?_⟩
   · intro ρ hd; obtain ⟨v, _, _, h3⟩ := key ρ hd; exact h3
@@ -67,7 +85,7 @@ theorem GoodE.sub {d : List (DomVar (Ext K))} {a b : Exp (Ext K)} (ha : GoodE d 
     simp only [FinE, finiteLits, Bool.and_eq_true] at *
     exact ⟨h1, h2⟩
   · intro ρ hd
-    exact (LO_arith (Or.inl rfl)).mpr ⟨ha.lo ρ hd, hb.lo ρ hd⟩
+    exact ⟨ha.nc ρ hd, hb.nc ρ hd, by rintro (h | h) <;> cases h⟩
   · intro ρ hd
     obtain ⟨x, hx⟩ := ha.defd ρ hd
     obtain ⟨y, hy⟩ := hb.defd ρ hd
@@ -76,12 +94,32 @@ theorem GoodE.sub {d : List (DomVar (Ext K))} {a b : Exp (Ext K)} (ha : GoodE d 
 /-- an arithmetic expression that is defined everywhere satisfies the contract. -/
 theorem GoodE.ofAG {d : List (DomVar (Ext K))} {e : Exp (Ext K)} (h : AG (inScope d) e) (hd : DefinedE e)
     (hf : FinE e) : GoodE d e :=
-  ⟨h.2, hf, fun ρ _ => logicOperands01_of_arithOnly ρ e h.1, fun ρ _ => hd ρ⟩
+  ⟨h.2, hf, fun ρ _ => NC_of_arithOnly ρ e h.1, fun ρ _ => hd ρ⟩
 
-/-- a source constraint: both sides satisfy the contract over the initial domain. -/
+/-- the STATIC contract on a source expression: declared used variables only, finite literals, and no and/or
+node collapsing to a non-0/1 value at the assignments satisfying the domains (= the harness flag
+`nary-singleton-nonbinary` is not raised, `NCon.ofFlag`).  Definedness is NOT part of it: it is a consequence
+of a successful compilation (`Rooc/Proofs/LinDef*.lean`). -/
+structure GoodS (d : List (DomVar (Ext K))) (e : Exp (Ext K)) : Prop where
+  vars : ∀ x ∈ varsOf e, inScope d x
+  fin : FinE e
+  nc : NCon d e
+
+theorem GoodE.toS {d : List (DomVar (Ext K))} {e : Exp (Ext K)} (h : GoodE d e) : GoodS d e :=
+  ⟨h.vars, h.fin, h.nc⟩
+
+theorem GoodS.withDef {d : List (DomVar (Ext K))} {e : Exp (Ext K)} (h : GoodS d e) (hd : DefOn d e) : GoodE d e :=
+  ⟨h.vars, h.fin, h.nc, hd⟩
+
+/-- `normalize` keeps the value as an `Option` (same definedness, same value). -/
+theorem GoodS.normalize_eval {d : List (DomVar (Ext K))} {e e' : Exp (Ext K)} (h : GoodS d e)
+    (hn : normalizeExp e = some e') (ρ : String → K) (hd : DomSat ρ d) : eval ρ e' = eval ρ e :=
+  normalize_eval_eq_nc hn (h.nc ρ hd) h.fin
+
+/-- a source constraint: both sides satisfy the static contract over the initial domain. -/
 structure SrcD (d0 : List (DomVar (Ext K))) (c : Constraint (Ext K)) : Prop where
-  lhs : GoodE d0 c.lhs
-  rhs : GoodE d0 c.rhs
+  lhs : GoodS d0 c.lhs
+  rhs : GoodS d0 c.rhs
 
 /-! ### the loop invariant -/
 
